@@ -146,41 +146,68 @@ def SSt.parseHandle (s : SSt) (t : String) : Option Nat :=
   | some h => if h < s.fresh then some h else none
   | none => none
 
-def SSt.step (s : SSt) (ts : List String) : Option (Option (SSt × String)) :=
+/-! ### operations as data (what the refinement theorem `c13_slist_refines` quantifies over) -/
+
+/-- One call of the `SList` / `SNode` API (`i`, `j` = indices, any integer; `e` = node handle). -/
+inductive SOp where
+  | new (v : Int)                    -- `&SNode[T]{Value: v}`
+  | get (i : Int)
+  | remove (i : Int)
+  | removeFront
+  | pushFront (v : Int)
+  | pushBack (v : Int)
+  | insertAt (i : Int) (v : Int)
+  | pushFrontNode (e : Nat)
+  | pushBackNode (e : Nat)
+  | insertNodeAt (i : Int) (e : Nat)
+  | swap (i j : Int)
+  | len
+  | front
+  | back
+  | next (e : Nat)
+
+/-- Run one call; `none` = Go panic (or the `Swap` loop not terminating). -/
+def SSt.apply (s : SSt) : SOp → Option (SSt × DRes)
+  | .new v => let (s1, e) := s.alloc v; some (s1, .ptr (some e))
+  | .get i => (s.getAt i).map fun p => (s, .ptr p)
+  | .remove i => (s.removeAt i).map fun (s1, p) => (s1, .ptr p)
+  | .removeFront => (s.removeFront).map fun (s1, p) => (s1, .ptr p)
+  | .pushFront v => some (s.pushFront v, .unit)
+  | .pushBack v => (s.pushBack v).map fun s1 => (s1, .unit)
+  | .insertAt i v => (s.insertAt i v).map fun s1 => (s1, .unit)
+  | .pushFrontNode e => some (s.pushFrontNode e, .unit)
+  | .pushBackNode e => (s.pushBackNode e).map fun s1 => (s1, .unit)
+  | .insertNodeAt i e => (s.insertNodeAt i e).map fun s1 => (s1, .unit)
+  | .swap i j => (s.swap i j).map fun s1 => (s1, .unit)
+  | .len => some (s, .int s.len)
+  | .front => some (s, .ptr s.head)
+  | .back => some (s, .ptr s.tail)
+  | .next e => some (s, .ptr (s.next.get e))
+
+def parseSOp (s : SSt) (ts : List String) : Option SOp :=
   match ts with
-  | ["new", v] => do
-    let v ← v.toInt?
-    let (s1, e) := s.alloc v
-    pure (some (s1, toString e))
-  | ["get", i] => do
-    let i ← i.toInt?
-    pure ((s.getAt i).map fun p => (s, showPtr p))
-  | ["rm", i] => do
-    let i ← i.toInt?
-    pure ((s.removeAt i).map fun (s1, p) => (s1, showPtr p))
-  | ["rmf"] => pure ((s.removeFront).map fun (s1, p) => (s1, showPtr p))
-  | ["pf", v] => do
-    let v ← v.toInt?
-    pure (some (s.pushFront v, "ok"))
-  | ["pb", v] => do
-    let v ← v.toInt?
-    pure ((s.pushBack v).map fun s1 => (s1, "ok"))
-  | ["ins", i, v] => do
-    let i ← i.toInt?; let v ← v.toInt?
-    pure ((s.insertAt i v).map fun s1 => (s1, "ok"))
-  | ["pfn", e] => do
-    let e ← s.parseHandle e
-    pure (some (s.pushFrontNode e, "ok"))
-  | ["pbn", e] => do
-    let e ← s.parseHandle e
-    pure ((s.pushBackNode e).map fun s1 => (s1, "ok"))
-  | ["insn", i, e] => do
-    let i ← i.toInt?; let e ← s.parseHandle e
-    pure ((s.insertNodeAt i e).map fun s1 => (s1, "ok"))
-  | ["swap", i, j] => do
-    let i ← i.toInt?; let j ← j.toInt?
-    pure ((s.swap i j).map fun s1 => (s1, "ok"))
+  | ["new", v] => do let v ← v.toInt?; pure (.new v)
+  | ["get", i] => do let i ← i.toInt?; pure (.get i)
+  | ["rm", i] => do let i ← i.toInt?; pure (.remove i)
+  | ["rmf"] => pure .removeFront
+  | ["pf", v] => do let v ← v.toInt?; pure (.pushFront v)
+  | ["pb", v] => do let v ← v.toInt?; pure (.pushBack v)
+  | ["ins", i, v] => do let i ← i.toInt?; let v ← v.toInt?; pure (.insertAt i v)
+  | ["pfn", e] => do let e ← s.parseHandle e; pure (.pushFrontNode e)
+  | ["pbn", e] => do let e ← s.parseHandle e; pure (.pushBackNode e)
+  | ["insn", i, e] => do let i ← i.toInt?; let e ← s.parseHandle e; pure (.insertNodeAt i e)
+  | ["swap", i, j] => do let i ← i.toInt?; let j ← j.toInt?; pure (.swap i j)
+  | ["len"] => pure .len
+  | ["front"] => pure .front
+  | ["back"] => pure .back
+  | ["next", e] => do let e ← s.parseHandle e; pure (.next e)
   | _ => none
+
+/-- One protocol line: `none` = unparsable, `some none` = panic.  The oracle runs exactly the
+function `SSt.apply` the refinement theorem is about. -/
+def SSt.step (s : SSt) (ts : List String) : Option (Option (SSt × String)) := do
+  let op ← parseSOp s ts
+  pure ((s.apply op).map fun (s1, r) => (s1, showRes r))
 
 def runSOps : Option SSt → List String → List String
   | _, [] => []
